@@ -17,6 +17,8 @@ func symAlphaByte(alpha int) byte {
 		symAssume(b == ' ' || b == 'a')
 	case 3:
 		symAssume(b == ' ' || b == 'a' || b == 0xff)
+	case 5: // 0 is what the ring buffer holds past the end of a short input
+		symAssume(b == 0 || b == ' ' || b == 'a')
 	default:
 		symAssume(b == ' ' || b == 'a' || b == 'b' || b == 0xff)
 	}
